@@ -74,3 +74,22 @@ for _pid, _txt in {
     REGISTRY[_pid] = {"modules": ["sm"], "level": "proof", "level_text": _txt, "level_note": _SM_NOTE, "design_ref": f"DESIGN.md section 5 {_pid}",
                       "replay": [PY, "native/replay_sm.py"],
                       "standins": {"quick": {"bounded: real StateMachine/AutonomousStateMachine on random machine shapes, histories and action scripts vs a reference simulator and statement-level monitors": [PY, "native/replay_sm.py"]}}}
+
+_ROBOT_MODS = ["ext_hal", "ext_time", "control", "precise_delay", "robot"]
+_ROBOT_NOTE = ("Assumed: wpilib/hal/ntcore externals (DriverStation flags arbitrary, isFMSAttached stable within an iteration, NT setters do not raise); the component/feedback/"
+               "periodic/reset lists are well formed (distinct existing objects); user callbacks touch framework-private state only through the public API; "
+               "dict.update semantics of component.__dict__.update; NotifierDelay per C16; SimpleWatchdog per C19.")
+for _pid, _txt in {
+    "C05": "Event-order postconditions (ghost serial numbers and per-object counters) of _enabled_periodic and _do_periodics proved with quantified loop invariants for any number of components, "
+           "feedbacks and periodics and any set of raising callbacks; mode loops: see level_note.",
+    "C06": "on_enable/on_disable hooks of every component are called exactly once, in declaration order (loop invariants, also under raising hooks on the FMS); "
+           "execute() carries the site assertion 'component is enabled' which _enabled_periodic requires from its callers.",
+    "C07": "Every function that invokes user callbacks has the exceptional postcondition 'an exception leaves only if the FMS is not attached' (G1) and the normal postcondition "
+           "'without the FMS a normal return means no callback raised' (G2), on top of the unchanged event-count/order postconditions; onException is verified against raise-iff-not-FMS.",
+    "C10": "Postcondition of _enabled_periodic: after the components, feedbacks and periodics (whatever raised, FMS attached) every will_reset_to key of every registered component "
+           "holds its default again, and the reset loop touches no other attribute (loop post-obligation relative to the loop entry state).",
+    "C11": "Postcondition of _do_periodics: each @feedback getter called exactly once per call, its setter called with exactly the value returned in that call, not called when the getter raised, "
+           "others unaffected; reached from every mode loop.",
+}.items():
+    REGISTRY[_pid] = {"modules": _ROBOT_MODS, "verify_modules": ["robot"], "level": "proof", "level_text": _txt, "level_note": _ROBOT_NOTE,
+                      "design_ref": f"DESIGN.md section 5 {_pid}", "claimed": False}
